@@ -44,6 +44,7 @@ Theorem C15_exactly_one_hook_by_form :
                               = Err (Leaf (KCustom msg) [] (Some es)))
     /\ (forall i p e, default_from_meta F (NNameValue i p e) = ws i (from_expr F e))
     /\ (forall e j l, strip_groups e = ELit j l -> default_from_expr F e = ws j (from_value F j l))
+    /\ (forall e j l, strip_groups e = ENeg j l -> default_from_expr F e = ws j (from_value F j l))
     /\ (forall i b, default_from_value F i (LBool b) = ws i (from_bool F b))
     /\ (forall i s, default_from_value F i (LStr s) = ws i (from_string F s))
     /\ (forall i c, default_from_value F i (LChar c) = ws i (from_char F c))
@@ -51,8 +52,8 @@ Theorem C15_exactly_one_hook_by_form :
     /\ (forall n, is_meta n = true -> default_from_nested F n = ws (ninfo n) (from_meta F n)).
 Proof.
   exact (fun F => conj (route_word F) (conj (route_list F) (conj (route_bad_list F) (conj (route_name_value F)
-          (conj (route_expr_lit F) (conj (route_value_bool F) (conj (route_value_string F)
-          (conj (route_value_char F) (conj (route_nested_lit F) (route_nested_meta F)))))))))).
+          (conj (route_expr_lit F) (conj (route_expr_neg F) (conj (route_value_bool F) (conj (route_value_string F)
+          (conj (route_value_char F) (conj (route_nested_lit F) (route_nested_meta F))))))))))).
 Qed.
 Print Assumptions C15_exactly_one_hook_by_form.
 
@@ -79,7 +80,7 @@ Theorem C15_generic_literal_and_expression_rejected :
   forall F : fm,
     (forall i l, (forall b, l <> LBool b) -> (forall s, l <> LStr s) -> (forall c, l <> LChar c) ->
        default_from_value F i l = Err (Leaf (KUnexpectedType (lit_type_name l)) [] (Some (i_span i))))
-    /\ (forall e, (forall j l, strip_groups e <> ELit j l) ->
+    /\ (forall e, (forall j l, strip_groups e <> ELit j l) -> (forall j l, strip_groups e <> ENeg j l) ->
           default_from_expr F e = Err (unexpected_expr_type (strip_groups e))).
 Proof. exact (fun F => conj (route_value_other F) (route_expr_other F)). Qed.
 Print Assumptions C15_generic_literal_and_expression_rejected.
